@@ -54,7 +54,7 @@ func (c *recClient) Delete(kube.ResourceList) (*kube.Result, []error) {
 func (c *recClient) Update(_, _ kube.ResourceList, _ bool) (*kube.Result, error) {
 	return &kube.Result{}, nil
 }
-func (c *recClient) IsReachable() error                              { return nil }
+func (c *recClient) IsReachable() error                               { return nil }
 func (c *recClient) GetWaiter(kube.WaitStrategy) (kube.Waiter, error) { return c, nil }
 func (c *recClient) Wait(kube.ResourceList, time.Duration) error      { return nil }
 func (c *recClient) WaitWithJobs(kube.ResourceList, time.Duration) error {
